@@ -24,7 +24,19 @@ var (
 	chanID  = ch.ChannelID{ID: "verif-cq", Type: 2}
 	chanKey = ch.ChannelKeyForID(chanID)
 	voters  = []ch.NodeID{1, 2, 3}
+	// writeQuorum is the majority of voters; the five-voter stage (VERIF_CQ_VOTERS=5) runs with 3 of 5,
+	// where leader + one follower is NOT a write quorum.
+	writeQuorum = 2
 )
+
+// setVoters switches the harness to n voters with a majority write quorum (before any cluster exists).
+func setVoters(n int) {
+	voters = voters[:0]
+	for i := 1; i <= n; i++ {
+		voters = append(voters, ch.NodeID(i))
+	}
+	writeQuorum = n/2 + 1
+}
 
 type commandLookuper interface {
 	LookupCommands(context.Context, []replication.CommandLookup) []replication.CommandLookupResult
@@ -118,7 +130,7 @@ func (c *cluster) start(id ch.NodeID) error {
 		ExchangeTimeout: 2 * time.Second, LocalTimeout: 2 * time.Second,
 		RecoveryTimeout: 3 * time.Second, CloseTimeout: 3 * time.Second,
 		MaxRetainedCommands: c.retained, RecoveryPageBytes: c.pageBytes,
-		LocalWorkers: 4, PeerWorkers: 8, PeerTargetFlight: 4, RepairWorkers: 2,
+		LocalWorkers: 4, PeerWorkers: 8, PeerTargetFlight: 4, RepairWorkers: 2, MaxVoters: len(voters),
 	})
 	if err != nil {
 		return err
@@ -161,7 +173,7 @@ func (c *cluster) restart(id ch.NodeID) error {
 		ExchangeTimeout: 2 * time.Second, LocalTimeout: 2 * time.Second,
 		RecoveryTimeout: 3 * time.Second, CloseTimeout: 3 * time.Second,
 		MaxRetainedCommands: c.retained, RecoveryPageBytes: c.pageBytes,
-		LocalWorkers: 4, PeerWorkers: 8, PeerTargetFlight: 4, RepairWorkers: 2,
+		LocalWorkers: 4, PeerWorkers: 8, PeerTargetFlight: 4, RepairWorkers: 2, MaxVoters: len(voters),
 	})
 	if err != nil {
 		return err
@@ -286,10 +298,10 @@ func (s *recStore) gate(ctx context.Context, op parkOp) {
 func (s *recStore) state() map[string]any {
 	loaded, err := s.inner.Load(context.Background(), replication.LoadBatch{Items: []replication.LoadRequest{{ChannelKey: chanKey, ChannelID: chanID}}})
 	if err != nil || len(loaded.Items) != 1 || loaded.Items[0].Err != nil {
-		return map[string]any{"leo": -1, "cm": -1, "tail": "?"}
+		return map[string]any{"leo": -1, "cm": -1, "tail": "?", "part": false}
 	}
 	st := loaded.Items[0].State
-	return map[string]any{"leo": int64(st.LEO), "cm": int64(st.Committed), "tail": dig(st.TailIdentity.Digest)}
+	return map[string]any{"leo": int64(st.LEO), "cm": int64(st.Committed), "tail": dig(st.TailIdentity.Digest), "part": false}
 }
 
 func (s *recStore) Load(ctx context.Context, batch replication.LoadBatch) (replication.LoadBatchResult, error) {
@@ -400,7 +412,7 @@ func (s *recStore) Replace(ctx context.Context, reps []replication.RecoveryRepla
 
 func mkAuthority(id replication.AuthorityID, leader ch.NodeID, fenced bool) replication.Authority {
 	a := replication.Authority{Key: chanKey, ChannelID: chanID, ID: id, Leader: leader,
-		Voters: append([]ch.NodeID(nil), voters...), WriteQuorum: 2}
+		Voters: append([]ch.NodeID(nil), voters...), WriteQuorum: writeQuorum}
 	if fenced {
 		a.WriteFence = ch.WriteFence{Token: fmt.Sprintf("wf-%d", authInt(id)), Version: id.FenceVersion, Reason: ch.WriteFenceReasonLeaderTransfer}
 	}
@@ -452,6 +464,9 @@ func (c *cluster) install(n ch.NodeID, a replication.Authority, timeout time.Dur
 type command struct {
 	id      ch.CommandID
 	records []ch.Record
+	// serverAlloc claims the record ids come from the server allocator (they are unique here): the
+	// message store may then skip duplicate-id reads only - every other validation must still run.
+	serverAlloc bool
 }
 
 func mkCommand(seq int, nrec int, epoch uint64, variant byte) command {
@@ -464,7 +479,7 @@ func mkCommand(seq int, nrec int, epoch uint64, variant byte) command {
 			ClientMsgNo: fmt.Sprintf("c-%d-%d", seq, i), ServerTimestampMS: int64(1700000000000 + seq*10 + i),
 			Payload: payload, SizeBytes: len(payload)}
 	}
-	return command{id: id, records: recs}
+	return command{id: id, records: recs, serverAlloc: seq%2 == 1}
 }
 
 func (c *cluster) commit(n ch.NodeID, expected replication.AuthorityID, cmd command, changed bool, timeout time.Duration) (replication.Receipt, error) {
@@ -474,7 +489,7 @@ func (c *cluster) commit(n ch.NodeID, expected replication.AuthorityID, cmd comm
 	}
 	c.event(kit.Ev("CommitCall", "n", int(n), "auth", authInt(expected), "cmd", cmdHex(cmd.id)))
 	ctx, cancel := context.WithTimeout(context.Background(), timeout)
-	rc, err := rt.Log().Commit(ctx, replication.Proposal{Key: chanKey, Expected: expected, CommandID: cmd.id, Records: cmd.records})
+	rc, err := rt.Log().Commit(ctx, replication.Proposal{Key: chanKey, Expected: expected, CommandID: cmd.id, Records: cmd.records, ServerAllocatedMessageIDs: cmd.serverAlloc})
 	cancel()
 	c.event(kit.Ev("CommitRet", "n", int(n), "cmd", cmdHex(cmd.id), "ok", err == nil, "err", errClass(err),
 		"first", int64(rc.First), "last", int64(rc.Last), "hw", int64(rc.HW), "auth", authInt(rc.Authority), "exp", authInt(expected),
